@@ -587,7 +587,11 @@ def oracle_text(syms, t, f, paren, top=True, terms=None, override=None):
         if top and not paren and len(out) > 2 and out[0] == "(" and out[-1] == ")":
             out = out[1:-1]
         return out
-    tpl = override[t[1]] if override and t[1] in override else syms[t[1]].tpl[f]
+    tpl = None
+    if override and t[1] in override:
+        tpl = override[t[1]](t) if callable(override[t[1]]) else override[t[1]]
+    if tpl is None:
+        tpl = syms[t[1]].tpl[f]
     ks = [oracle_text(syms, k, f, paren, False, terms, override) for k in t[3]]
 
     def rep(m):
@@ -598,6 +602,20 @@ def oracle_text(syms, t, f, paren, top=True, terms=None, override=None):
 
     out = MARK.sub(rep, tpl)
     if top and not paren and len(out) > 2 and out[0] == "(" and out[-1] == ")":
+        out = out[1:-1]
+    return out
+
+
+def oracle_text_seq(syms, t, f, top=True):
+    """the algorithm of language() itself, independently of Lean: display(), then for i = 1..arity
+       replace_all("%%i%%", text of argument i) one after the other; outer parentheses stripped"""
+    if t[0] == "T":
+        out = term_text(t, f)
+    else:
+        out = syms[t[1]].tpl[f]
+        for i, k in enumerate(t[3]):
+            out = out.replace("%%" + str(i + 1) + "%%", oracle_text_seq(syms, k, f, False))
+    if top and len(out) > 2 and out[0] == "(" and out[-1] == ")":
         out = out[1:-1]
     return out
 
@@ -1375,6 +1393,11 @@ def run(chk, replay=None):
             FMT[f], kind, detail, show(t), texts[pid][f][:400], genomes[pid][0].n, len(genomes[pid][0].doms),
             genomes[pid][1], genomes[pid][2], show_genome(g_exact, genomes[pid][0])[:600])
         tags["layout"] = genomes[pid][1]
+        # exact attribution helpers for the known findings on string constants: the printed text IS the
+        # simultaneous substitution (so only a terminal's own text can be wrong) / IS what the sequential
+        # replace_all loop produces (so only a marker inside a constant can be the cause)
+        tags["subst"] = "1" if texts[pid][f] == oracle_text(syms, t, f, False) else "0"
+        tags["seqsubst"] = "1" if texts[pid][f] == oracle_text_seq(syms, t, f) else "0"
         fails.append((node_count(t), what, replay_of(pid, format=FMT[f], kind=kind, printed=texts[pid][f],
                                                      detail=detail, inputs=inputs_of[pid]), tags))
 
@@ -1459,9 +1482,9 @@ def run(chk, replay=None):
     for p in sorted(texts):
         if not prints_exactly(programs[p][0]):
             chk.count("value_check_skipped_constants_do_not_print_exactly")
-        elif sife_on_strings(programs[p][0]) and programs[p][1] != "sife-strings":
-            chk.count("value_check_skipped_sife_on_strings")
         else:
+            if sife_on_strings(programs[p][0]):
+                chk.count("value_check_programs_with_sife_on_strings")
             exact_ids.append(p)
     batches = [exact_ids[i:i + 400] for i in range(0, len(exact_ids), 400)]
 
@@ -1535,25 +1558,51 @@ def run(chk, replay=None):
                     mism.append((pid, j, g, w))
                     break
 
-    # attribute mismatches of programs with FSIGMOID: recompile the same text with the sigmoid
-    # sub-expressions replaced by the interpreter's own formula; if THAT agrees bit for bit on every
-    # input, the only cause is the formula difference (known finding), however much a later
-    # discontinuous primitive (fmod, floor, a comparison) amplified the last-bit difference
-    sig_ids = sorted({pid for pid, _, _, _ in mism if "real::sigmoid" in symbols_of(programs[pid][0])
-                      and texts[pid][0] == oracle_text(syms, programs[pid][0], 0, False)})
-    sig_only = set()
-    if sig_ids:
+    # attribute a mismatch to a known finding only by an EXACT test, never by a tolerance: the same text
+    # is recompiled with the suspected template replaced
+    #   sigmoid-formula : every FSIGMOID computed by the interpreter's own formula (helper vc19_sig)
+    #   sife-address    : every SIFE over strings comparing the TEXT (strcmp) instead of the addresses
+    # and only if that variant agrees bit for bit with vita::run on every input is the case tagged
+    # `value-<cause>`; however much a later discontinuous primitive amplified the difference.  Any
+    # other mismatch stays an unmatched `value` violation.
+    CAUSES = {"sigmoid-formula": ("real::sigmoid", "vc19_sig(%%1%%)"),
+              "sife-address": ("str::ife", lambda n: "(strcmp(%%1%%,%%2%%)==0 ? %%3%% : %%4%%)" if n[2][0] == "S" else None)}
+
+    def applicable(t):
+        out = []
+        if "real::sigmoid" in symbols_of(t):
+            out.append("sigmoid-formula")
+        if sife_on_strings(t):
+            out.append("sife-address")
+        return out
+
+    def same_values(p, got):
+        return all(w in ("void", "exc") or g == w or
+                   (g.startswith("d:") and w.startswith("d:") and "real::max" in symbols_of(programs[p][0])
+                    and bitsd(int(g[2:])) == 0.0 and bitsd(int(w[2:])) == 0.0)
+                   for g, w in zip(got, values[p]))
+
+    variants, vin = [], {}          # (variant id, pid, causes)
+    for pid in sorted({pid for pid, _, _, _ in mism}):
+        t = programs[pid][0]
+        if texts[pid][0] != oracle_text(syms, t, 0, False):
+            continue
+        cs = applicable(t)
+        subsets = [[c] for c in cs] + ([cs] if len(cs) > 1 else [])
+        for sub in subsets:
+            vid = len(variants)
+            variants.append((vid, pid, sub))
+            vin[vid] = inputs_of[pid]
+    cause_of = {}
+    if variants:
         try:
-            v2, e2 = compile_and_run("run_sig", [(p, result_dom(syms, programs[p][0]),
-                                                  oracle_text(syms, programs[p][0], 0, False,
-                                                              override={"real::sigmoid": "vc19_sig(%%1%%)"}))
-                                                 for p in sig_ids], inputs_of)
-            for p in sig_ids:
-                if p in v2 and all(w in ("void", "exc") or g == w or
-                                   (g.startswith("d:") and w.startswith("d:") and "real::max" in symbols_of(programs[p][0])
-                                    and bitsd(int(g[2:])) == 0.0 and bitsd(int(w[2:])) == 0.0)
-                                   for g, w in zip(v2[p], values[p])):
-                    sig_only.add(p)
+            v2, e2 = compile_and_run("run_attr", [(vid, result_dom(syms, programs[p][0]),
+                                                   oracle_text(syms, programs[p][0], 0, False,
+                                                               override={CAUSES[c][0]: CAUSES[c][1] for c in sub}))
+                                                  for vid, p, sub in variants], vin)
+            for vid, p, sub in variants:
+                if p not in cause_of and vid in v2 and same_values(p, v2[vid]):
+                    cause_of[p] = "+".join(sub)
         except OracleTimeout:
             chk.count("oracle_batches_skipped_timeout(gcc)")
     for pid, j, g, w in mism:
@@ -1562,10 +1611,12 @@ def run(chk, replay=None):
         if g.startswith("d:") and w.startswith("d:"):
             a, b = bitsd(int(g[2:])), bitsd(int(w[2:]))
             det += " (%r vs %r)" % (a, b)
-        if pid in sig_only:
-            kind = "value-sigmoid-formula"
-            det += "; with every FSIGMOID sub-expression computed by the interpreter's formula " \
-                   "(x<0: exp(x)/(1+exp(x))) the same text agrees bit for bit on every input"
+        if pid in cause_of:
+            kind = "value-" + cause_of[pid]
+            det += "; recompiled with " + " and ".join(
+                {"sigmoid-formula": "every FSIGMOID computed by the interpreter's formula (x<0: exp(x)/(1+exp(x)))",
+                 "sife-address": "every SIFE over strings comparing the text (strcmp) instead of the addresses"}[c]
+                for c in cause_of[pid].split("+")) + " the same text agrees bit for bit on every input"
         fail(pid, 0, kind, det)
     chk.count("values_compared", nval)
     chk.count("values_skipped_interpreter_void", nvoid)
@@ -1584,8 +1635,8 @@ def run(chk, replay=None):
         tags = dict(tags)
         tags["symbols"] = ",".join(sorted(set(symbols_of(tuple_tree(rep["tree"])))))
         groups.setdefault((tags["kind"], tags["fmt"]), []).append((what, rep, tags))
-    prio = ["text-vs-substitution", "sequential-replace", "parse", "terminal-not-an-operand", "python-syntax",
-            "python-ast", "clang-syntax", "clang-ast", "gcc-compile", "value", "value-sigmoid-formula"]
+    prio = ["text-vs-substitution", "format-selection", "team-text", "sequential-replace", "parse",
+            "terminal-not-an-operand", "python-syntax", "python-ast", "clang-syntax", "clang-ast", "gcc-compile", "value"]
     rank = 0
     while any(len(g) > rank for g in groups.values()) and rank < 40:
         for key in sorted(groups, key=lambda k: (prio.index(k[0]) if k[0] in prio else len(prio), k[1])):
